@@ -8,7 +8,7 @@ Small-scope enumeration of match statements:
         Point(x=p, y=q), Point(p), Point(p, q), Point(p, y=q), too many positionals, positional+keyword clash, int(p),
         int(), str(), str(p), float(p), dict(), list(), DP(p, q) dataclass, __match_args__ of wrong type (list / non-str)),
         or-pattern (all pairs of non-binding leaves, binding alternatives with equal name sets) and `as` pattern, with the
-        sub-patterns p, q ranging over {0, 'ab', None, capture, wildcard, value};
+        sub-patterns p, q ranging over {0, 'ab', None, capture, wildcard, value, the or-pattern 0 | 1};
   * F2  guards (true / false / depending on a capture, logged) on a representative per form;
   * F3  all ordered pairs of 24 representative patterns as two-case statements; all ordered triples of 8 as three-case
         statements (the sequence/mapping test cache is shared between cases);
@@ -33,7 +33,7 @@ LEVEL = 'exploration'
 ENGINE = 'E2 diffexplore'
 TECHNIQUE = 'exhaustive pattern grammar (depth 2; 3 thorough) x case-list combinations x ~50 subjects, compiled vs CPython on identical source'
 LEVEL_TEXT = ('Every pattern of the match grammar to depth 2 (literal, capture, wildcard, value, 9 sequence forms, 6 mapping forms, '
-              '~20 class forms incl. __match_args__ misuse, or, as; sub-patterns over {0, "ab", None, capture, wildcard, value}) as '
+              '~20 class forms incl. __match_args__ misuse, or, as; sub-patterns over {0, "ab", None, capture, wildcard, value, 0 | 1}) as '
               'a one-case statement, guard variants, all ordered pairs of 24 and triples of 8 representative patterns as multi-case '
               'statements, statically typed subject variants and case bodies with nested scopes are compiled and run on all ~50 '
               'subjects (builtin and ABC-registered sequences/mappings, str/bytes, dict kinds, '
@@ -59,7 +59,7 @@ NONBINDING = [p for p in LEAVES if not p[1] and p[0] != '_']
 
 def subs(names):
     """Sub-pattern alphabet for one position; `names` = capture name to use there."""
-    return [('0', ()), ("'ab'", ()), ('None', ()), (names, (names,)), ('_', ()), ('NSK.K', ())]
+    return [('0', ()), ("'ab'", ()), ('None', ()), (names, (names,)), ('_', ()), ('NSK.K', ()), ('0 | 1', ())]
 
 
 def _combine(fmt, *parts, extra=()):
@@ -213,7 +213,12 @@ def _keyfn(tag, inp, exp, got):
     """C31 | family:pattern form (sub-pattern leaves abstracted to p) | subject class | divergence class."""
     import re
     fam, pat = tag.split(':', 1)
-    form = re.sub(r"'ab'|\b0\b|None|NSK\.K|\b[xy]\b|\b_\b", 'p', pat)
+    if got[0] == 'crash' or exp is None:
+        # a crash is keyed by the kinds of pattern present, not by form x subject (one root cause, few keys)
+        kinds = [k for k, rx in (('class', r'[A-Za-z]\('), ('seq', r'\[|\((?![a-z]*=)'), ('map', r'\{'), ('or', r'\|'), ('as', r' as '),
+                                 ('star', r'\*'), ('guard', r' if ')) if re.search(rx, pat)]
+        return 'C31|crash|%s' % ('+'.join(kinds) or 'leaf')
+    form = re.sub(r"'ab'|\b0 \| 1\b|\b0\b|None|NSK\.K|\b[xy]\b|\b_\b", 'p', pat)
     return 'C31|%s:%s|%s|%s' % (fam, form, _SUBJECT_CLASS.get(inp[0].strip("'"), 'object'), e2.divclass(exp, got))
 
 
